@@ -304,7 +304,7 @@ def table_cases():
         meta.append(('table:levels', p, None))
     exprs.append('bools_eqb [pony_keep_spec; pony_escape_braces; pony_short_idx; pony_bare_formatted_is_operand] [%s; %s; %s; %s]' % (
         b(tbl['keep_spec']), b(tbl['escape']), b(tbl['short_idx']), b(tbl['bare_formatted_is_operand']))); meta.append(('table:flags', None, None))
-    exprs.append('bools_eqb [%s] [%s]' % ('; '.join('pony_kind_ok K%s' % k for k in G.KINDS), '; '.join(b(tbl['kind_ok'][k]) for k in G.KINDS)))
+    exprs.append('bools_eqb [%s] [%s]' % ('; '.join('pony_kind_ok K%s' % k for k in G.KINDS), '; '.join(b(tbl['kind_ok'].get(k, True)) for k in G.KINDS)))
     meta.append(('table:kind_ok', None, None))
     return exprs, meta
 
@@ -319,7 +319,7 @@ def corr_trees(ctx):
     for p in G.KINDS:
         for i in range(3):
             for c in G.KINDS:
-                if not G.allowed(p, i, c): continue
+                if not G.allowed(p, i, c) or 'Other' in (p, c): continue
                 child = G.minimal(c)
                 if c == 'Const' and i == 0 and p in ('Attribute', 'Call', 'Subscript'): child = ('Const', "'s'", [])     # not an integer literal (lexical)
                 for t in G.variants_for(p, i, child):
@@ -368,7 +368,7 @@ def correspondence(ctx):
     some = lambda x: 'None' if x is None else '(Some %s)' % x
     first_tree_case = None
     for t, origin in corr_trees(ctx):
-        if any(not tbl['kind_ok'][k] for k in G.kinds_in(t)):
+        if any(not tbl['kind_ok'].get(k, True) for k in G.kinds_in(t)):
             dist['skipped_unprintable_kind'] = dist.get('skipped_unprintable_kind', 0) + 1     # ~x: the code raises, nothing to compare (search reports it)
             continue
         T = G.coq_expr(t)
@@ -469,6 +469,9 @@ def correspondence(ctx):
         except Exception as e:
             disagreements.append({'what': 'real PreTranslator / create_extractors raised on a generated query body', 'input': t, 'impl': '%s: %s' % (type(e).__name__, e)})
             continue
+        if srcs is not None and G.has_kind(t, {'Dict', 'Set'}):
+            srcs = None; dist['marking_dict_or_set'] = dist.get('marking_dict_or_set', 0) + 1      # the printer model has no dict / set displays: compare the set only
+        if G.has_kind(t, {'Gen'}): dist['marking_subqueries'] = dist.get('marking_subqueries', 0) + 1
         if srcs is not None and any(a != b and a == b[:len(a)] for a in paths for b in paths):
             # an external inside another external (only through the list / starred defect): ast2src caches node.src, and the text of the inner one
             # carries the parentheses its parent gave it iff the outer one was printed first - the set's iteration order decides. Compare the set only.
@@ -489,10 +492,15 @@ def correspondence(ctx):
     cenv = G.coq_env(G.FragGen.SCOPE)
     dist.update({'eval_semantics_cases': 0, 'eval_semantics_python_raises': 0})
     for _ in range(ctx.scale(250, 2500)):
+        fg.confused = False
         t = fg.gen(ctx.rng.choice(['int', 'int', 'str', 'tup']), ctx.rng.choice([1, 2, 3, 4]))
         try:
             v = eval(compile(G.fresh_ast(t), '<frag>', 'eval'), {'__builtins__': {}}, dict(G.FragGen.SCOPE))
             exp = '(Some %s)' % G.coq_pyv(v)
+            if fg.confused:      # a typed tree with a deliberate type confusion may leave the fragment (e.g. int * str): then None is right, a value must still be Python's
+                exprs.append('bit (match ceval %s %s with Some v => pyv_eqb v %s | None => true end) 1' % (cenv, G.coq_expr(t), G.coq_pyv(v)))
+                meta.append(('eval-semantics', t, exp)); dist['eval_semantics_cases'] += 1; ncases += 1
+                continue
         except (TypeError, IndexError):
             exp = 'None'; dist['eval_semantics_python_raises'] += 1
         except G.Unmodelled:
@@ -516,7 +524,8 @@ def _names(t):
     return out
 
 
-MARKING_CORPUS = ['p.x in [a, *b]', 'p.x == a + 1', 'p.x == f([p.y])', 'p.x in [a, p.y]', 'p.x == f(*[a, b])', 'a < p.x < b + c', 'p.x == (a if b else c) + q.y', '(lambda u: u + a)(p.x)',
+MARKING_CORPUS = ['p.x in (s.y for s in S if s.z == a + 1 and s.w == p.x)', 'count(s for s in S for t in s.items if t.x > a and s.y == b) > c', 'p.x == f({a: b})',
+                  'p.x in {a, b + 1}', 'p.x == f({})', 'p.x == f({a: p.y})', 'p.x in (t for s, t in S if s == a)', 'p.x in [a, *b]', 'p.x == a + 1', 'p.x == f([p.y])', 'p.x in [a, p.y]', 'p.x == f(*[a, b])', 'a < p.x < b + c', 'p.x == (a if b else c) + q.y', '(lambda u: u + a)(p.x)',
                   'count(p.x) > a + b', 'p.d == date(2020, a, 1)', 'p.d == date(2020, 1, 1)', "p.s == f'{a}{p.x}'", "p.s == f'{a:>3}-{b!r}'", "p.s == f'{p.x:>3}'", 'p.x == a.b.c(d).e',
                   'p.x == x[a:b]', 'p.x == x[:]', 'p.x == f(k=a, j=p.y)', 'raw_sql(a) and p.x', 'getattr(p, a) == b', 'p.x == (a, (b, c))[0]', 'p.x == -a ** b', 'not p.x and not a']
 
@@ -608,7 +617,7 @@ def search(ctx, deep):
     for p in G.KINDS:
         for i in range(3):
             for c in G.KINDS:
-                if G.allowed(p, i, c):
+                if G.allowed(p, i, c) and 'Other' not in (p, c):
                     for t in G.variants_for(p, i, G.minimal(c))[:(3 if deep else 1)]:
                         if G.wf(t, parse_model=False): trees.append(t)
     for text in CORPUS:
